@@ -3,6 +3,7 @@ package yyflow
 import (
 	"fmt"
 	"go/ast"
+	"os"
 	"go/types"
 	"sort"
 	"strings"
@@ -566,4 +567,559 @@ func (l *Lang) IgnoresTrivia() *report.RuleResult {
 		res.Bad(l.L.Label+"/"+c, pos, "", "a parser decision depends on trivia or positions: "+c)
 	}
 	return res
+}
+
+// ---- presence: which fields are certainly set in every object that reaches the tree ----------
+
+// Presence of one struct type: fields that are non-nil (nodes, tokens) resp.
+// non-empty (lists) in every instance the grammar can put into a tree.
+type Presence struct {
+	Always        map[string]bool
+	NonEmpty      map[string]bool
+	NonEmptyIfSet map[string]bool // list fields that are nil or non-empty, never an empty non-nil slice
+	Sources       int
+}
+
+// typeAllowed: on path p the value v can be a *T (type facts from switches and assertions).
+func typeAllowed(p *Path, v Val, t string) bool {
+	f := p.St.Facts[v.String()]
+	if f == nil {
+		return true
+	}
+	if f.Type != "" && f.Type != t {
+		return false
+	}
+	for _, nt := range f.NotTyp {
+		if nt == t {
+			return false
+		}
+	}
+	return true
+}
+
+type presSet struct {
+	always, nonEmpty map[string]bool
+	emptyNonNil      map[string]bool // list fields that some source sets to a possibly-empty non-nil slice
+	top              bool            // no source seen yet
+}
+
+func newTop() *presSet { return &presSet{top: true} }
+
+func (p *presSet) meet(always, nonEmpty map[string]bool) bool {
+	if p.emptyNonNil == nil {
+		p.emptyNonNil = map[string]bool{}
+	}
+	// a field that is certainly set (non-nil) but not certainly non-empty may be an empty slice
+	for k := range always {
+		if !nonEmpty[k] && !p.emptyNonNil[k] {
+			p.emptyNonNil[k] = true
+		}
+	}
+	if p.top {
+		p.top = false
+		p.always, p.nonEmpty = map[string]bool{}, map[string]bool{}
+		for k := range always {
+			p.always[k] = true
+		}
+		for k := range nonEmpty {
+			p.nonEmpty[k] = true
+		}
+		return true
+	}
+	ch := false
+	for k := range p.always {
+		if !always[k] {
+			delete(p.always, k)
+			ch = true
+		}
+	}
+	for k := range p.nonEmpty {
+		if !nonEmpty[k] {
+			delete(p.nonEmpty, k)
+			ch = true
+		}
+	}
+	return ch
+}
+
+// TreePresence computes Presence for every struct type by a fixpoint over the actions.
+func (l *Lang) TreePresence(shapes map[string]*Shape) map[string]*Presence {
+	g := l.L.G
+	escEarly := l.EscapesWhole()
+	// per nonterminal and type
+	nt := map[string]map[string]*presSet{}
+	get := func(x, t string) *presSet {
+		if nt[x] == nil {
+			nt[x] = map[string]*presSet{}
+		}
+		if nt[x][t] == nil {
+			nt[x][t] = newTop()
+		}
+		return nt[x][t]
+	}
+	symName := func(a *Action, i int) string {
+		if i >= 1 && i <= len(a.Prod.RHS) {
+			return a.Prod.RHS[i-1]
+		}
+		return ""
+	}
+	var certain func(a *Action, p *Path, v Val) bool
+	var nonEmpty func(a *Action, p *Path, v Val) bool
+	certain = func(a *Action, p *Path, v Val) bool {
+		if isNil, known := p.St.KnownNil(v); known {
+			return !isNil
+		}
+		switch x := v.(type) {
+		case *Obj, Fold:
+			return true
+		case Sym:
+			nm := symName(a, x.I)
+			sy := g.Symbols[nm]
+			if sy == nil {
+				return false
+			}
+			if sy.Terminal {
+				return nm != "error"
+			}
+			sh := shapes[nm]
+			return sh != nil && !sh.MayNil
+		case Part:
+			if sy, ok := x.Base.(Sym); ok {
+				ps := nt[symName(a, sy.I)][x.T]
+				if ps == nil || ps.top {
+					return true // not computed yet: optimistic start of a greatest fixpoint
+				}
+				return ps.always[x.F]
+			}
+			// a field of an object that was itself read from a field: certain if every producer of that type sets it
+			for xn, m := range nt {
+				if escEarly[xn] {
+					continue // only carrier producers are read field by field
+				}
+				if ps := m[x.T]; ps != nil && !ps.top && !ps.always[x.F] {
+					return false
+				}
+			}
+			return true
+		case Idx:
+			return nonEmpty(a, p, x.Base) || x.Which == "i"
+		case ListV:
+			return true // a slice value (possibly empty) is never a nil node
+		}
+		return false
+	}
+	nonEmpty = func(a *Action, p *Path, v Val) bool {
+		if f := p.St.Facts[v.String()]; f != nil && f.LenGt0 != nil && *f.LenGt0 {
+			return true
+		}
+		switch x := v.(type) {
+		case ListV:
+			for _, sg := range x.Segs {
+				if _, ok := sg.(Elem); ok {
+					return true
+				}
+				if nonEmpty(a, p, sg) {
+					return true
+				}
+			}
+			return false
+		case Sym:
+			sh := shapes[symName(a, x.I)]
+			return x.Member == "list" && sh != nil && !sh.MayEmpty && !sh.MayNil && !sh.Unknown
+		case Part:
+			if sy, ok := x.Base.(Sym); ok {
+				ps := nt[symName(a, sy.I)][x.T]
+				if ps == nil || ps.top {
+					return true
+				}
+				return ps.nonEmpty[x.F]
+			}
+		}
+		return false
+	}
+	objSets := func(a *Action, p *Path, o *Obj) (map[string]bool, map[string]bool) {
+		al, ne := map[string]bool{}, map[string]bool{}
+		for f, fv := range o.Fields {
+			if certain(a, p, fv) {
+				al[f] = true
+			}
+			if nonEmpty(a, p, fv) {
+				ne[f] = true
+			}
+		}
+		return al, ne
+	}
+	for changed, iter := true, 0; changed && iter < 60; iter++ {
+		changed = false
+		for n := 1; n < len(l.Actions); n++ {
+			a := l.Actions[n]
+			for _, p := range a.Paths {
+				switch x := p.Result.(type) {
+				case *Obj:
+					al, ne := objSets(a, p, x)
+					if get(a.Prod.LHS, x.TName).meet(al, ne) {
+						changed = true
+					}
+				case Sym:
+					src := symName(a, x.I)
+					for t, ps := range nt[src] {
+						if ps.top || !typeAllowed(p, x, t) {
+							continue
+						}
+						al, ne := map[string]bool{}, map[string]bool{}
+						for k := range ps.always {
+							al[k] = true
+						}
+						for k := range ps.nonEmpty {
+							ne[k] = true
+						}
+						for _, u := range p.St.Updates {
+							if u.Base.String() != x.String() || u.T != t {
+								continue
+							}
+							if u.Append {
+								if lv, ok := u.Val.(ListV); ok && len(lv.Segs) > 0 {
+									ne[u.F] = true
+								}
+								continue
+							}
+							if certain(a, p, u.Val) {
+								al[u.F] = true
+							} else {
+								delete(al, u.F)
+							}
+							if nonEmpty(a, p, u.Val) {
+								ne[u.F] = true
+							} else {
+								delete(ne, u.F)
+							}
+						}
+						if get(a.Prod.LHS, t).meet(al, ne) {
+							changed = true
+						}
+					}
+				}
+			}
+		}
+	}
+	// fields that a later fold sets on the elements of a list nonterminal (PHP 5 member-access chains)
+	foldNT := map[string]map[string]bool{}
+	addFold := func(x string, fs []string) bool {
+		ch := false
+		if foldNT[x] == nil {
+			foldNT[x] = map[string]bool{}
+		}
+		for _, f := range fs {
+			if !foldNT[x][f] {
+				foldNT[x][f] = true
+				ch = true
+			}
+		}
+		return ch
+	}
+	var listSyms func(a *Action, v Val) []string
+	listSyms = func(a *Action, v Val) []string {
+		switch x := v.(type) {
+		case Sym:
+			if x.Member == "list" {
+				return []string{symName(a, x.I)}
+			}
+		case ListV:
+			var out []string
+			for _, sg := range x.Segs {
+				out = append(out, listSyms(a, sg)...)
+			}
+			return out
+		case Slc:
+			return listSyms(a, x.Base)
+		}
+		return nil
+	}
+	for changed := true; changed; {
+		changed = false
+		for n := 1; n < len(l.Actions); n++ {
+			a := l.Actions[n]
+			for _, p := range a.Paths {
+				var scan func(v Val)
+				scan = func(v Val) {
+					switch x := v.(type) {
+					case Fold:
+						for _, s := range listSyms(a, x.List) {
+							if addFold(s, x.Fields) {
+								changed = true
+							}
+						}
+						scan(x.Acc)
+					case *Obj:
+						for _, fv := range x.Fields {
+							scan(fv)
+						}
+					case ListV:
+						for _, sg := range x.Segs {
+							scan(sg)
+						}
+					case Elem:
+						scan(x.V)
+					}
+				}
+				scan(p.Result)
+				for _, d := range p.St.dollar {
+					scan(d)
+				}
+				// $k[0].(*T).F = v : an element of list $k gets field F in this action
+				for _, u := range p.St.Updates {
+					if ix, ok := u.Base.(Idx); ok {
+						if _, isNil := u.Val.(Nil); !isNil {
+							for _, sname := range listSyms(a, ix.Base) {
+								if addFold(sname, []string{u.F}) {
+									changed = true
+								}
+							}
+						}
+					}
+				}
+				// a list that flows into the result list of this production inherits what happens to that list later
+				if g.Symbols[a.Prod.LHS].Type == "list" {
+					var fs []string
+					for f := range foldNT[a.Prod.LHS] {
+						fs = append(fs, f)
+					}
+					for _, s := range listSyms(a, p.Result) {
+						if addFold(s, fs) {
+							changed = true
+						}
+					}
+				}
+			}
+		}
+	}
+	// tree-wide: objects placed into the tree
+	tree := map[string]*presSet{}
+	tget := func(t string) *presSet {
+		if tree[t] == nil {
+			tree[t] = newTop()
+		}
+		return tree[t]
+	}
+	count := map[string]int{}
+	esc := l.EscapesWhole()
+	// objects that are elements of a list folded in the same action get the fold's fields
+	foldObj := map[*Obj][]string{}
+	for n := 1; n < len(l.Actions); n++ {
+		for _, p := range l.Actions[n].Paths {
+			var scan func(v Val)
+			scan = func(v Val) {
+				switch x := v.(type) {
+				case Fold:
+					if lv, ok := x.List.(ListV); ok {
+						for _, sg := range lv.Segs {
+							if el, ok := sg.(Elem); ok {
+								if o, ok := el.V.(*Obj); ok {
+									foldObj[o] = x.Fields
+								}
+							}
+						}
+					}
+					scan(x.Acc)
+				case *Obj:
+					for _, fv := range x.Fields {
+						scan(fv)
+					}
+				}
+			}
+			scan(p.Result)
+		}
+	}
+	for n := 1; n < len(l.Actions); n++ {
+		a := l.Actions[n]
+		for _, p := range a.Paths {
+			w := l.contents(p)
+			if ro, ok := p.Result.(*Obj); ok && !esc[a.Prod.LHS] && isCarrierLike(ro, esc, a) {
+				// the result is only a carrier (its consumers take it apart): what is put into it is accounted for where its parts are placed
+				w = &walker{l: l, objs: map[*Obj]int{}}
+				for _, u := range p.St.Updates {
+					if u.F != "Position" && u.F != "Value" {
+						w.walk(u.Val, u.Base.String()+"."+u.F, u.At)
+					}
+				}
+			}
+			// nested literals and result literals that are placed (not the result object itself: its consumers account for it)
+			for _, o := range w.order {
+				if ro, ok := p.Result.(*Obj); ok && ro == o {
+					continue
+				}
+				al, ne := objSets(a, p, o)
+				if g.Symbols[a.Prod.LHS].Type == "list" {
+					// an element of this production's list: a fold over the list sets these fields later
+					for f := range foldNT[a.Prod.LHS] {
+						al[f] = true
+					}
+				}
+				for _, f := range foldObj[o] {
+					al[f] = true
+				}
+				if os.Getenv("VERIF_DUMP_PRES") == o.TName {
+					fmt.Printf("    pres %s nested literal in %s: %v\n", o.TName, l.L.G.Key(a.Prod), al)
+				}
+				tget(o.TName).meet(al, ne)
+				count[o.TName]++
+			}
+			for _, lf := range w.leaves {
+				sy, ok := lf.V.(Sym)
+				if !ok {
+					continue
+				}
+				if rs, isRes := p.Result.(Sym); isRes && rs == sy && lf.Where == "$$" {
+					continue // passed on
+				}
+				src := symName(a, sy.I)
+				for t, ps := range nt[src] {
+					if ps.top || !typeAllowed(p, sy, t) {
+						continue
+					}
+					al, ne := map[string]bool{}, map[string]bool{}
+					for k := range ps.always {
+						al[k] = true
+					}
+					for k := range ps.nonEmpty {
+						ne[k] = true
+					}
+					for _, u := range p.St.Updates {
+						if u.Base.String() == sy.String() && u.T == t && !u.Append {
+							if certain(a, p, u.Val) {
+								al[u.F] = true
+							}
+							if nonEmpty(a, p, u.Val) {
+								ne[u.F] = true
+							}
+						}
+					}
+					if _, isList := p.Result.(ListV); isList && lf.Where == "$$" && g.Symbols[a.Prod.LHS].Type == "list" {
+						for f := range foldNT[a.Prod.LHS] {
+							al[f] = true
+						}
+					}
+					if os.Getenv("VERIF_DUMP_PRES") == t {
+						fmt.Printf("    pres %s placed from $%d (%s) in %s [%s]: %v\n", t, sy.I, src, l.L.G.Key(a.Prod), pathLabel(p), al)
+					}
+					tget(t).meet(al, ne)
+					count[t]++
+				}
+			}
+		}
+	}
+	out := map[string]*Presence{}
+	for t, ps := range tree {
+		if ps.top {
+			continue
+		}
+		pr := &Presence{Always: ps.always, NonEmpty: ps.nonEmpty, NonEmptyIfSet: map[string]bool{}, Sources: count[t]}
+		if st := l.structOf(t); st != nil {
+			for i := 0; i < st.NumFields(); i++ {
+				if _, isSlice := st.Field(i).Type().Underlying().(*types.Slice); isSlice && !ps.emptyNonNil[st.Field(i).Name()] {
+					pr.NonEmptyIfSet[st.Field(i).Name()] = true
+				}
+			}
+		}
+		out[t] = pr
+	}
+	return out
+}
+
+func isCarrierLike(o *Obj, esc map[string]bool, a *Action) bool { return true }
+
+// CoSet: for every struct type, field F -> the fields that are certainly
+// populated in every action that may populate F (tokens that only exist
+// together with a child, separators with their list, ...).
+func (l *Lang) CoSet(shapes map[string]*Shape) map[string]map[string]map[string]bool {
+	out := map[string]map[string]map[string]bool{}
+	escCo := l.EscapesWhole()
+	meet := func(t, f string, with map[string]bool) {
+		if out[t] == nil {
+			out[t] = map[string]map[string]bool{}
+		}
+		cur, ok := out[t][f]
+		if !ok {
+			cp := map[string]bool{}
+			for k := range with {
+				cp[k] = true
+			}
+			out[t][f] = cp
+			return
+		}
+		for k := range cur {
+			if !with[k] {
+				delete(cur, k)
+			}
+		}
+	}
+	for n := 1; n < len(l.Actions); n++ {
+		a := l.Actions[n]
+		for _, p := range a.Paths {
+			certainV := func(v Val) bool {
+				if isNil, known := p.St.KnownNil(v); known {
+					return !isNil
+				}
+				switch x := v.(type) {
+				case *Obj, Fold, ListV, Part, Idx:
+					return true
+				case Sym:
+					if x.I >= 1 && x.I <= len(a.Prod.RHS) {
+						nm := a.Prod.RHS[x.I-1]
+						if sy := l.L.G.Symbols[nm]; sy != nil && sy.Terminal {
+							return true
+						}
+						sh := shapes[nm]
+						return sh != nil && !sh.MayNil
+					}
+				}
+				return false
+			}
+			maybeV := func(v Val) bool {
+				if _, isNil := v.(Nil); isNil {
+					return false
+				}
+				if isNil, known := p.St.KnownNil(v); known && isNil {
+					return false
+				}
+				return true
+			}
+			groups := map[string]map[string]Val{} // object identity -> fields
+			types_ := map[string]string{}
+			w := l.contents(p)
+			for _, o := range w.order {
+				if ro, ok := p.Result.(*Obj); ok && ro == o && !escCo[a.Prod.LHS] {
+					continue // a carrier that consumers take apart
+				}
+				k := fmt.Sprintf("obj%d", o.ID)
+				groups[k] = o.Fields
+				types_[k] = o.TName
+			}
+			for _, u := range p.St.Updates {
+				if u.Append {
+					continue
+				}
+				k := u.Base.String() + "|" + u.T
+				if groups[k] == nil {
+					groups[k] = map[string]Val{}
+					types_[k] = u.T
+				}
+				groups[k][u.F] = u.Val
+			}
+			for k, fields := range groups {
+				certainSet := map[string]bool{}
+				for f, v := range fields {
+					if certainV(v) {
+						certainSet[f] = true
+					}
+				}
+				for f, v := range fields {
+					if maybeV(v) {
+						meet(types_[k], f, certainSet)
+					}
+				}
+			}
+		}
+	}
+	return out
 }
